@@ -200,6 +200,17 @@ func interRun(src string, cfg hs.Cfg, pipe bool) (evs []event, panicked string, 
 	return
 }
 
+// endsInEscapedNewline: the text ends in backslash-newline or backslash-CR-newline as the reader sees it (NUL bytes are
+// skipped by Parser.rune, so they are ignored here too).
+func endsInEscapedNewline(s string) bool {
+	t := strings.ReplaceAll(s, "\x00", "")
+	return strings.HasSuffix(t, "\\\n") || strings.HasSuffix(t, "\\\r\n")
+}
+
+func endsInNewline(s string) bool {
+	return strings.HasSuffix(strings.ReplaceAll(s, "\x00", ""), "\n")
+}
+
 func hasHeredoc(s *syntax.Stmt) bool {
 	found := false
 	syntax.Walk(s, func(n syntax.Node) bool {
@@ -284,7 +295,7 @@ func interCase(id, src string, cfg hs.Cfg) caseObs {
 	if len(got) != len(f.Stmts) || (len(got) > 0 && !reflect.DeepEqual(got, f.Stmts)) {
 		o.Fails = append(o.Fails, "interactive_statements_differ")
 		o.Note = fmt.Sprintf("Parse %d stmts, complete batches hold %d", len(f.Stmts), len(got))
-		if (!strings.HasSuffix(src, "\n") || strings.HasSuffix(src, "\\\n") || strings.HasSuffix(src, "\\\r\n")) && len(got) < len(f.Stmts) && (len(got) == 0 || reflect.DeepEqual(got, f.Stmts[:len(got)])) {
+		if (!endsInNewline(src) || endsInEscapedNewline(src)) && len(got) < len(f.Stmts) && (len(got) == 0 || reflect.DeepEqual(got, f.Stmts[:len(got)])) {
 			// the class: the input does not end in a newline, the batches are a proper prefix of Parse's statements,
 			// and terminating the last line repairs it
 			for _, tail := range []string{"\n", "\n\n"} {
@@ -323,7 +334,7 @@ func interCase(id, src string, cfg hs.Cfg) caseObs {
 				unknown = true // the delimiter line is not part of the tree
 			}
 		}
-		if d >= 2 && src[d-1] == '\n' && (src[d-2] == '\\' || (d >= 3 && src[d-2] == '\r' && src[d-3] == '\\')) {
+		if endsInEscapedNewline(src[:d]) {
 			unknown = true // the line ends in backslash-newline: whether it continues a statement is not visible in the tree
 		}
 		if ev.Incomplete && !open && !unknown {
